@@ -880,6 +880,18 @@ def gen_polyline(rng, frd):
     verts = _walk(rng, n, m, lattice)
     if rng.random() < 0.25 and n > 3:
         verts[-1] = list(verts[0])          # closed
+    if rng.random() < 0.2:
+        # a shallow curve: any three consecutive vertices are colinear within the tolerance
+        # 0.01, yet a run of removed vertices bends by more than it, so that the clean-up must
+        # measure against the last KEPT vertex; followed by two sharp corners
+        c = rng.uniform(2.3, 9.0)
+        k = 0.01 / c
+        nn = rng.randint(8, 14)
+        th = rng.uniform(0, 2 * math.pi)
+        ox, oy = rng.uniform(-m, m), rng.uniform(-m, m)
+        raw = [(float(i), k * i * i) for i in range(nn)] + [(nn - 1.0, 5.0), (0.0, 5.0)]
+        verts = [[ox + math.cos(th) * x - math.sin(th) * y,
+                  oy + math.sin(th) * x + math.cos(th) * y] for (x, y) in raw]
     xs = [p[0] for p in verts]
     ys = [p[1] for p in verts]
     cx, cy = sum(xs) / len(xs), sum(ys) / len(ys)
